@@ -285,3 +285,268 @@ Proof.
   reflexivity.
 Qed.
 
+(* ------------------------------------------------------------------------------------- *)
+(** * States of bytes and the four round transformations *)
+
+Definition isb (x : Uint63.int) : Prop := exists n, (n < 256)%N /\ x = psi n.
+
+Definition bst (s : st16) : Prop :=
+  let '(St16 x0 x1 x2 x3 x4 x5 x6 x7 x8 x9 x10 x11 x12 x13 x14 x15) := s in
+  isb x0 /\ isb x1 /\ isb x2 /\ isb x3 /\ isb x4 /\ isb x5 /\ isb x6 /\ isb x7 /\
+  isb x8 /\ isb x9 /\ isb x10 /\ isb x11 /\ isb x12 /\ isb x13 /\ isb x14 /\ isb x15.
+
+Lemma isb_psi n : (n < 256)%N -> isb (psi n).
+Proof. intro H. exists n. auto. Qed.
+
+(* open a byte state: sixteen N below 256 *)
+Ltac open_bst s H :=
+  destruct s; cbn [bst] in H;
+  destruct H as ((?n & ?Hn & ->) & (?n & ?Hn & ->) & (?n & ?Hn & ->) & (?n & ?Hn & ->) &
+                 (?n & ?Hn & ->) & (?n & ?Hn & ->) & (?n & ?Hn & ->) & (?n & ?Hn & ->) &
+                 (?n & ?Hn & ->) & (?n & ?Hn & ->) & (?n & ?Hn & ->) & (?n & ?Hn & ->) &
+                 (?n & ?Hn & ->) & (?n & ?Hn & ->) & (?n & ?Hn & ->) & (?n & ?Hn & ->)).
+
+(* side conditions "... < 256", decided on the head symbol only (never by conversion: unifying
+   two different table look-ups would evaluate both tables) *)
+Ltac b256 :=
+  repeat lazymatch goal with
+  | |- (XN _ < 256)%N => apply XN_lt
+  | |- (SN _ < 256)%N => apply SN_lt
+  | |- (ISN _ < 256)%N => apply ISN_lt
+  | |- (N.lxor _ _ < 256)%N => apply lxor_lt
+  | |- (lin4 _ _ _ _ _ _ _ _ < 256)%N => apply lin4_lt
+  | |- bp m1 => exact bp_m1 | |- bp m2 => exact bp_m2 | |- bp m3 => exact bp_m3
+  | |- bp m9 => exact bp_m9 | |- bp mb => exact bp_mb | |- bp md => exact bp_md
+  | |- bp me => exact bp_me
+  | |- (_ < 256)%N => assumption
+  end.
+
+Ltac close_bst := cbn [bst]; repeat (apply conj); apply isb_psi; b256.
+
+Lemma St16_ext x0 x1 x2 x3 x4 x5 x6 x7 x8 x9 x10 x11 x12 x13 x14 x15
+      y0 y1 y2 y3 y4 y5 y6 y7 y8 y9 y10 y11 y12 y13 y14 y15 :
+  x0 = y0 -> x1 = y1 -> x2 = y2 -> x3 = y3 -> x4 = y4 -> x5 = y5 -> x6 = y6 -> x7 = y7 ->
+  x8 = y8 -> x9 = y9 -> x10 = y10 -> x11 = y11 -> x12 = y12 -> x13 = y13 -> x14 = y14 ->
+  x15 = y15 ->
+  St16 x0 x1 x2 x3 x4 x5 x6 x7 x8 x9 x10 x11 x12 x13 x14 x15
+  = St16 y0 y1 y2 y3 y4 y5 y6 y7 y8 y9 y10 y11 y12 y13 y14 y15.
+Proof. intros; subst; reflexivity. Qed.
+
+(* per-byte facts, tabulated directly *)
+Lemma inv_sbox_sbox_psi n : (n < 256)%N -> inv_sbox (sbox (psi n)) = psi n.
+Proof.
+  revert n. apply (tab1 (fun n => inv_sbox (sbox (psi n))) (fun n => psi n)). vm_compute. reflexivity.
+Qed.
+
+Lemma lxor_lxor_psi m k : (m < 256)%N -> (k < 256)%N ->
+  Uint63.lxor (Uint63.lxor (psi m) (psi k)) (psi k) = psi m.
+Proof.
+  revert m k.
+  apply (tab2 (fun m k => Uint63.lxor (Uint63.lxor (psi m) (psi k)) (psi k)) (fun m _ => psi m)).
+  vm_compute. reflexivity.
+Qed.
+
+Lemma sub_shift_bst s : bst s -> bst (sub_shift s).
+Proof.
+  intro H. open_bst s H. cbn [sub_shift]. do 16 rewrite sbox_psi by assumption. close_bst.
+Qed.
+
+Lemma inv_shift_sub_sub_shift s : bst s -> inv_shift_sub (sub_shift s) = s.
+Proof.
+  intro H. open_bst s H. cbn [sub_shift inv_shift_sub].
+  apply St16_ext; apply inv_sbox_sbox_psi; assumption.
+Qed.
+
+Lemma add_round_key_bst s k : bst s -> bst k -> bst (add_round_key s k).
+Proof.
+  intros H K. open_bst s H. open_bst k K. cbn [add_round_key st16_map2].
+  do 16 rewrite lxor_psi by assumption. close_bst.
+Qed.
+
+Lemma add_round_key_involutive s k : bst s -> bst k -> add_round_key (add_round_key s k) k = s.
+Proof.
+  intros H K. open_bst s H. open_bst k K. cbn [add_round_key st16_map2].
+  apply St16_ext; apply lxor_lxor_psi; assumption.
+Qed.
+
+Lemma mix_columns_bst s : bst s -> bst (mix_columns s).
+Proof.
+  intro H. open_bst s H. cbn [mix_columns].
+  do 4 rewrite mix_column_psi by assumption. cbv beta iota. close_bst.
+Qed.
+
+Lemma inv_mix_columns_mix_columns s : bst s -> inv_mix_columns (mix_columns s) = s.
+Proof.
+  intro H. open_bst s H. cbn [mix_columns].
+  do 4 rewrite mix_column_psi by assumption. cbv beta iota. cbn [inv_mix_columns].
+  do 4 rewrite inv_mix_column_psi by b256. cbv beta iota.
+  pose proof (inv_mixN_mixN n n0 n1 n2 Hn Hn0 Hn1 Hn2) as C0.
+  pose proof (inv_mixN_mixN n3 n4 n5 n6 Hn3 Hn4 Hn5 Hn6) as C1.
+  pose proof (inv_mixN_mixN n7 n8 n9 n10 Hn7 Hn8 Hn9 Hn10) as C2.
+  pose proof (inv_mixN_mixN n11 n12 n13 n14 Hn11 Hn12 Hn13 Hn14) as C3.
+  unfold mixN, inv_mixN in C0, C1, C2, C3. cbv beta iota in C0, C1, C2, C3.
+  injection C0 as -> -> -> ->. injection C1 as -> -> -> ->.
+  injection C2 as -> -> -> ->. injection C3 as -> -> -> ->.
+  reflexivity.
+Qed.
+
+(* ------------------------------------------------------------------------------------- *)
+(** * The round structure: the inverse cipher undoes the cipher, for ANY list of byte round
+      keys (the key schedule is opaque here) *)
+
+Lemma aes_rounds_step x k ks : ks <> [] ->
+  aes_rounds x (k :: ks) = aes_rounds (add_round_key (mix_columns (sub_shift x)) k) ks.
+Proof. destruct ks; [congruence | reflexivity]. Qed.
+
+Lemma aes_inv_rounds_step t k ks : ks <> [] ->
+  aes_inv_rounds t (k :: ks) = aes_inv_rounds (inv_mix_columns (add_round_key (inv_shift_sub t) k)) ks.
+Proof. destruct ks; [congruence | reflexivity]. Qed.
+
+Lemma rounds_inverse mids : forall x kn tail,
+  bst x -> Forall bst mids -> bst kn -> tail <> [] ->
+  aes_inv_rounds (add_round_key (aes_rounds x (mids ++ [kn])) kn) (rev mids ++ tail)
+  = aes_inv_rounds (sub_shift x) tail.
+Proof.
+  induction mids as [|k ms IH]; intros x kn tail Hx Hms Hkn Htail.
+  - cbn [app rev aes_rounds].
+    rewrite add_round_key_involutive by auto using sub_shift_bst. reflexivity.
+  - inversion Hms as [|? ? Hk Hms']; subst.
+    cbn [app]. rewrite aes_rounds_step by (destruct ms; discriminate).
+    cbn [rev]. rewrite <- app_assoc. cbn [app].
+    set (x' := add_round_key (mix_columns (sub_shift x)) k).
+    assert (Hx' : bst x') by (apply add_round_key_bst; auto using mix_columns_bst, sub_shift_bst).
+    rewrite IH by (auto; discriminate).
+    rewrite aes_inv_rounds_step by assumption.
+    rewrite inv_shift_sub_sub_shift by assumption.
+    unfold x'. rewrite add_round_key_involutive by auto using mix_columns_bst, sub_shift_bst.
+    rewrite inv_mix_columns_mix_columns by auto using sub_shift_bst. reflexivity.
+Qed.
+
+Theorem aes_decrypt_encrypt_st (ks : aes_ks) (s : st16) :
+  Forall bst ks -> bst s -> aes_decrypt_st ks (aes_encrypt_st ks s) = s.
+Proof.
+  intros Hks Hs. destruct ks as [|k0 rest]; [reflexivity|].
+  inversion Hks as [|? ? Hk0 Hrest]; subst.
+  unfold aes_encrypt_st, aes_decrypt_st.
+  destruct rest as [|r rest'].
+  - (* a single round key *)
+    cbn [rev app aes_rounds aes_inv_rounds]. now apply add_round_key_involutive.
+  - destruct (@exists_last _ (r :: rest') ltac:(discriminate)) as (mids & kn & Heq).
+    rewrite Heq in *. clear Heq r rest'.
+    apply Forall_app in Hrest as [Hmids Hkn]. inversion Hkn; subst.
+    replace (rev (k0 :: mids ++ [kn])) with (kn :: rev mids ++ [k0])
+      by (cbn [rev]; rewrite rev_app_distr; reflexivity).
+    assert (Hx : bst (add_round_key s k0)) by now apply add_round_key_bst.
+    rewrite rounds_inverse by (auto; discriminate).
+    cbn [aes_inv_rounds]. rewrite inv_shift_sub_sub_shift by assumption.
+    now apply add_round_key_involutive.
+Qed.
+
+(* ------------------------------------------------------------------------------------- *)
+(** * Blocks of bytes in and out, and the key schedule *)
+
+Lemma aes_rounds_bst ks : forall x, bst x -> Forall bst ks -> bst (aes_rounds x ks).
+Proof.
+  induction ks as [|k ks IH]; intros x Hx Hks; [exact Hx|].
+  inversion Hks as [|? ? Hk Hks']; subst.
+  destruct ks as [|k' ks'].
+  - cbn [aes_rounds]. apply add_round_key_bst; auto using sub_shift_bst.
+  - rewrite aes_rounds_step by discriminate.
+    apply IH; [|assumption]. apply add_round_key_bst; auto using mix_columns_bst, sub_shift_bst.
+Qed.
+
+Lemma aes_encrypt_st_bst ks s : Forall bst ks -> bst s -> bst (aes_encrypt_st ks s).
+Proof.
+  intros Hks Hs. destruct ks as [|k0 rest]; [exact Hs|].
+  inversion Hks; subst. cbn [aes_encrypt_st]. apply aes_rounds_bst; [|assumption].
+  now apply add_round_key_bst.
+Qed.
+
+Lemma isb_nth (bs : list N) i : Forall (fun b => (b < 256)%N) bs -> isb (nth i (map psi bs) (psi 0)).
+Proof.
+  intro H. rewrite map_nth. apply isb_psi.
+  destruct (nth_in_or_default i bs 0%N) as [Hin | ->]; [|reflexivity].
+  rewrite Forall_forall in H. now apply H.
+Qed.
+
+Lemma st16_of_list_bst (bs : list N) :
+  Forall (fun b => (b < 256)%N) bs -> bst (st16_of_list (map psi bs)).
+Proof.
+  intro H. unfold st16_of_list. cbn [bst].
+  change (Uint63.of_Z 0) with (psi 0) || idtac.
+  repeat (apply conj); apply (isb_nth bs _ H).
+Qed.
+
+Lemma bytes_ok_Forall (b : list N) : bytes_ok b = true -> Forall (fun x => (x < 256)%N) b.
+Proof.
+  unfold bytes_ok. rewrite forallb_forall, Forall_forall. intros H x Hx.
+  specialize (H x Hx). unfold byte_ok in H. now apply N.ltb_lt.
+Qed.
+
+Lemma st16_of_bytes_bst (b : list N) : bytes_ok b = true -> bst (st16_of_bytes b).
+Proof. intro H. apply st16_of_list_bst. now apply bytes_ok_Forall. Qed.
+
+(* every round key the key expansion produces is a state of bytes, whatever the words are *)
+Lemma round_key_bst (ws : list Uint63.int) : bst (round_key_of_words ws).
+Proof.
+  unfold round_key_of_words, ints_of_bytes, bytes_of_words_be. apply st16_of_list_bst.
+  induction ws as [|w ws IH]; cbn [flat_map]; [constructor|].
+  unfold word_be_bytes at 1. cbn [app].
+  repeat (constructor; [apply phi_lt|]). exact IH.
+Qed.
+
+Lemma aes_expand_bst (key : list N) : Forall bst (aes_expand key).
+Proof.
+  unfold aes_expand. destruct (aes_key_ok key); [|constructor].
+  apply Forall_forall. intros k Hk. apply in_map_iff in Hk as (ws & <- & _). apply round_key_bst.
+Qed.
+
+Lemma st16_of_bytes_of_st16 s : bst s -> st16_of_bytes (bytes_of_st16 s) = s.
+Proof.
+  intro H. open_bst s H.
+  unfold bytes_of_st16, bytes_of_ints, st16_of_bytes, ints_of_bytes, st16_of_list.
+  cbn [st16_to_list map nth]. apply St16_ext; f_equal; apply phi_psi; assumption.
+Qed.
+
+Lemma bytes_of_st16_of_bytes (b : list N) :
+  length b = 16 -> bytes_ok b = true -> bytes_of_st16 (st16_of_bytes b) = b.
+Proof.
+  intros Hl Hok. apply bytes_ok_Forall in Hok.
+  do 16 (destruct b as [|?x b]; [discriminate|]). destruct b; [|discriminate].
+  unfold bytes_of_st16, bytes_of_ints, st16_of_bytes, ints_of_bytes, st16_of_list.
+  cbn [st16_to_list map nth].
+  repeat match goal with H : Forall _ (_ :: _) |- _ => inversion H; clear H; subst end.
+  rewrite !phi_psi by assumption. reflexivity.
+Qed.
+
+(* AES decryption inverts AES encryption: every schedule of byte round keys (in particular the
+   one of every key, of any length), every block of sixteen bytes *)
+Theorem aes_decrypt_encrypt_block_ks (ks : aes_ks) (b : list N) :
+  Forall bst ks -> length b = 16 -> bytes_ok b = true ->
+  aes_decrypt_block_ks ks (aes_encrypt_block_ks ks b) = b.
+Proof.
+  intros Hks Hl Hok. unfold aes_decrypt_block_ks, aes_encrypt_block_ks.
+  pose proof (st16_of_bytes_bst b Hok) as Hs.
+  rewrite st16_of_bytes_of_st16 by now apply aes_encrypt_st_bst.
+  rewrite aes_decrypt_encrypt_st by assumption.
+  now apply bytes_of_st16_of_bytes.
+Qed.
+
+Theorem aes_decrypt_encrypt_block (key b : list N) :
+  length b = 16 -> bytes_ok b = true ->
+  aes_decrypt_block key (aes_encrypt_block key b) = b.
+Proof.
+  intros Hl Hok. unfold aes_decrypt_block, aes_encrypt_block.
+  apply aes_decrypt_encrypt_block_ks; auto using aes_expand_bst.
+Qed.
+
+From Coq Require Import String.
+
+(* non-vacuity and a sanity check against FIPS 197 appendix C.1 *)
+Example aes_decrypt_encrypt_block_c1 :
+  aes_encrypt_block (hex "000102030405060708090a0b0c0d0e0f"%string)
+                    (hex "00112233445566778899aabbccddeeff"%string)
+  = hex "69c4e0d86a7b0430d8cdb78070b4c55a"%string.
+Proof. vm_compute. reflexivity. Qed.
+
+Print Assumptions aes_decrypt_encrypt_block.
